@@ -11,6 +11,10 @@ def hook_commits():
         return []
 
 CHECKS = {
+ "C14": dict(cat="exploration",
+   text="Parameterised parent / child scenarios (finishing and streaming children, parent-side cancellation after k child events or waiting for done.invoke, re-entered invoking states, two invokes per state, autoforward with host events, explicit and generated ids, inline content and src files) run for real; one merged log of parent and children (each child event carries its sequence number and the child's session id) is checked per clause with ordering / counting predicates; race-dependent clauses are stated per observed outcome.",
+   note="Trusted: rec.rs merged log, the per-clause predicates in c14.rs. Relative timing comes from the scenario parameters and OS scheduling; the outcome orders actually seen are listed in the evidence. 'Invokes are cancelled after onexit' (ordering relative to onexit content) is not part of the statement and not judged.",
+   tech="offline checker over merged parent/child histories (per-clause ordering and exactly-once predicates)", ref="DESIGN.md §5 C14"),
  "C15": dict(cat="exploration",
    text="A parent / invoked child / sibling topology exercises every target form (literal and computed) with every payload shape; each uniquely named event must be received exactly once in the addressed session and queue kind (IRECV vs XRECV at the tracer) with sendid, origin, origintype, invokeid and data as sent, and a reply addressed to _event.origin / origintype must reach the original sender; concurrent creation (16 threads on a barrier, each session invoking four children) checks uniqueness of session ids and generated send / invoke ids.",
    note="Trusted: rec.rs tracer attribution by thread, the expectation table in c15.rs. Topologies are fixed templates (2 data models), not generated.",
